@@ -420,6 +420,27 @@ pub fn gen_control(rng: &mut Rng, sw: &Swarm, limit: usize) -> SpecMessage {
             }
         }
     }
+    // values that repeat something else about the message: an integer AVP
+    // equal to the message's own length, to the number of its AVPs, to the
+    // offset or length of a record, to its own attribute type
+    if !many && avps.len() >= 2 && rng.chance(1, 12) {
+        let i = rng.urange(1, avps.len() - 1);
+        let offset: usize = 12 + avps[..i].iter().map(encoded_len).sum::<usize>();
+        let v: u64 = match rng.below(6) {
+            0 => total as u64,
+            1 => avps.len() as u64,
+            2 => offset as u64,
+            3 => encoded_len(&avps[i]) as u64,
+            4 => avps[i].attr as u64,
+            _ => (total - 12) as u64,
+        };
+        match &mut avps[i].val {
+            Val::U16(x) => *x = v as u16,
+            Val::U32(x) => *x = v as u32,
+            Val::U64(x) => *x = v,
+            _ => {}
+        }
+    }
     // the `length` member is ignored by the encoder: stale values of every
     // kind, biased to the ones a shortcut would compare against
     let length = match rng.below(10) {
@@ -518,19 +539,25 @@ pub fn gen_data(rng: &mut Rng, sw: &Swarm) -> SpecMessage {
         data[pad..pad + k].copy_from_slice(&f[..k]);
     }
     let total = data_header_len(has_l, has_s, has_o) + dl;
+    // header fields that coincide: equal ids, Ns = Nr, an id equal to the length
+    let tunnel_id = num(rng, 16, sw.values) as u16;
+    let session_id = match rng.below(12) {
+        0 => tunnel_id,
+        1 => total as u16,
+        _ => num(rng, 16, sw.values) as u16,
+    };
+    let ns = num(rng, 16, sw.values) as u16;
+    let nr = match rng.below(8) {
+        0 => ns,
+        1 => ns.wrapping_add(1),
+        _ => num(rng, 16, sw.values) as u16,
+    };
     SpecMessage::Data {
         prio,
         length: if has_l { Some(total as u16) } else { None },
-        tunnel_id: num(rng, 16, sw.values) as u16,
-        session_id: num(rng, 16, sw.values) as u16,
-        ns_nr: if has_s {
-            Some((
-                num(rng, 16, sw.values) as u16,
-                num(rng, 16, sw.values) as u16,
-            ))
-        } else {
-            None
-        },
+        tunnel_id,
+        session_id,
+        ns_nr: if has_s { Some((ns, nr)) } else { None },
         offset,
         data,
     }
